@@ -234,6 +234,29 @@ def _analyse(name, base, lines, fmt, tier, res):
             res["viol"].append({"key": f"{name}:cycle-species", "what": "species list changes in a write/read cycle", "replay": {"case": name}})
         else:
             res["ok"].append(f"{name}:cycle-species")
+    # -- a cycle after an edit: the network read back from the native file is edited through the API (coefficient,
+    #    window, re-indexing) and written again; what is read back is the edited network
+    if cyc.ok and len(direct.meta["reactions"]) >= 1:
+        edit = {"op": "exec", "code": "r0 = net.reaction_list[0]\nr0.alpha = r0.alpha * 3 + 1\nr0.temp_max = 777.0\nrl = net.reaction_list[-1]\nrl.gamma = rl.gamma + 12.5\nnet.reindex()\n"}
+        w1 = {"op": "write_read", "file": "w1.naunet", "format": "naunet"}
+        mem = proj.render(f"{name}-edit-mem", dict(base, targets=[dict(tgt)], ops=[w1, edit]))
+        back = proj.render(f"{name}-edit-back", dict(base, targets=[dict(tgt)], ops=[w1, edit, {"op": "write_read", "file": "w2.naunet", "format": "naunet"}]))
+        if mem.ok and back.ok:
+            ra, rb = mem.meta["reactions"], back.meta["reactions"]
+            if len(ra) != len(rb):
+                res["viol"].append({"key": f"{name}:edit-cycle-count", "what": f"edited network: {len(ra)} reactions written, {len(rb)} read back", "replay": {"case": name}})
+            for i, (a, b) in enumerate(zip(ra, rb)):
+                diffs = [f for f in FIELDS if (sorted(a[f]) if isinstance(a[f], list) else a[f]) != (sorted(b[f]) if isinstance(b[f], list) else b[f])]
+                for f in ("alpha", "beta", "gamma"):
+                    if float(f"{a[f]:10.3e}") != b[f]:
+                        diffs.append(f)
+                diffs = [f for f in diffs if not (f in ("temp_min", "temp_max") and round(a[f], 2) == b[f])]
+                if diffs:
+                    res["viol"].append({"key": f"{name}:edit-cycle:{i}:{','.join(sorted(set(diffs)))}", "what": f"reaction {i}, edited through the API after it was read from a native file, is written and read back with {dict((f, b[f]) for f in diffs)} instead of {dict((f, a[f]) for f in diffs)}", "replay": {"case": name, "in_memory": a, "read_back": b, "edit": edit["code"]}})
+                else:
+                    res["ok"].append(f"{name}:edit-cycle:{i}")
+        else:
+            res["notes"].append(f"{name}: edit cycle not rendered: {str(mem.meta.get('error') or back.meta.get('error'))[-160:]}")
     # -- E1: direct rendering vs re-read copy vs exported + re-rendered
     _export_vs_direct(name, direct, "exp", lines, fmt, res, f"{name}:export-rerender")
     # -- the same after a history: the project directory already holds the export of an *earlier* version of the
